@@ -342,8 +342,9 @@ def run(scn, want=(), fault=None, script=None, fit_faults=None, probe_limit=True
             opts = dict(n_train_min=options["n_train_min"], n_train_max=options["n_train_max"],
                         buffer=options["buffer_ntrain"], gp_radius=options["gp_radius"])
             log = snap_log(function_logger)
+            ncalls_before = len(tr.calls)
             out = _o(gp, current_point, function_logger, options, optim_state, iteration_history, refit_flag)
-            tr.events.append(dict(type="local_fit", metric=metric, centre=centre, opts=opts, log=log,
+            tr.events.append(dict(type="local_fit", metric=metric, centre=centre, opts=opts, log=log, ncalls_at=ncalls_before,
                                   gp=snap_gp(out[0]), refit=bool(refit_flag), phase=tr.phase, lb=np.array(optim_state["lb"]),
                                   ub=np.array(optim_state["ub"])))
             return out
